@@ -124,6 +124,7 @@ pub fn run(cat: &Catalog, cfg: &Config, stats: &mut Stats, run_seed: u64) -> Vec
     }
     let nfaults = if fault_free { 0 } else { 1 + sw.usize_below(3) };
     let confuse = sw.chance(1, 3);
+    let peer_writers = sw.chance(1, 2);
     run.trace.push(format!(
         "run_seed={run_seed} swarm: types={:?} size={size} records={nrec} fault_free={fault_free} kinds={:?} faults={nfaults} type_confusion={confuse}",
         types.iter().map(|i| cat.entries[*i].name).collect::<Vec<_>>(),
@@ -139,7 +140,17 @@ pub fn run(cat: &Catalog, cfg: &Config, stats: &mut Stats, run_seed: u64) -> Vec
         let ei = *sc.pick(&types);
         let e = &cat.entries[ei];
         let val = gen.val(&e.ty, &mut wl);
-        let Some(bytes) = encode(e, &val) else {
+        // one writer in four is the reference peer: a conforming writer that is not this library
+        // (unknown-length sequences, over-long varints)
+        let peer = peer_writers && sc.chance(1, 4);
+        let encoded = if peer {
+            run.stats.count("writer.reference_peer");
+            Some(model::enc::ref_encode(&cat.reg, &e.ty, &val, model::enc::Forms::mixed(wl.derive("forms"))))
+        } else {
+            run.stats.count("writer.real");
+            encode(e, &val)
+        };
+        let Some(bytes) = encoded else {
             run.stats.count("encode_failed");
             run.trace.push(format!("write {} -> encode failed (skipped)", e.name));
             continue;
@@ -152,7 +163,7 @@ pub fn run(cat: &Catalog, cfg: &Config, stats: &mut Stats, run_seed: u64) -> Vec
             Ok(d) => d.marks,
             Err(_) => ref_marks(&cat.reg, &e.ty, &bytes),
         };
-        run.trace.push(format!("write #{} {} {} bytes", records.len(), e.name, bytes.len()));
+        run.trace.push(format!("write #{} {} {} bytes{}", records.len(), e.name, bytes.len(), if peer { " (reference peer)" } else { "" }));
         records.push(Record {
             entry: ei,
             val,
